@@ -327,6 +327,11 @@ def site_shape(what):
     from . import optnorm
     parts = []
     for piece in what.split("; "):
+        mf = re.fullmatch(r"(?:_|.*\))\.([A-Za-z_][\w]*(?:\.[A-Za-z_]\w*)*(?:@OK)?)", piece)
+        if mf:
+            # a field of some operand (`expected.cohort_assertion`, `responses[appid].cohort_assertion`): the field is what matters
+            parts.append("…." + mf.group(1))
+            continue
         m = re.match(r"([A-Za-z_][A-Za-z_0-9:<>]*)\(", piece)
         if not m:
             parts.append(piece if re.fullmatch(r"'.*'|\d+|fmt\(.*\)|[A-Za-z_:]+\{\}", piece) else "…")
